@@ -52,6 +52,11 @@ pub fn gen(out: &mut Out, _sub: &str) {
     for i in 0..n {
         let mut r = rng.fork();
         let mut k = Knobs::default();
+        // conditionally executed calls (CBranch + call-like instruction in second position)
+        k.w_cbranch_call_internal = 6;
+        k.w_cbranch_call_extern = 4;
+        k.w_cbranch_callind = 2;
+        k.w_cbranch_callother = 1;
         let mut rk = RawKnobs::default();
         match i % 5 {
             0 => { k.max_subs = 2; k.max_blocks = 3; }
